@@ -19,25 +19,25 @@ Qed.
 Lemma Becke_tf_ok_lemma rmin R_ : 0 < R_ ->
   tf_ok Dom (Becke_transform rmin R_) (Becke_inverse rmin R_) (Becke_deriv rmin R_) (Becke_deriv2 rmin R_) (Becke_deriv3 rmin R_).
 Proof.
-  intros HR x Hx. repeat apply conj.
-  - now apply Becke_d1. - now apply Becke_d2. - now apply Becke_d3.
-  - apply Rgt_not_eq. now apply Becke_deriv_pos.
+  intros HR x Hx.
+  refine (conj (Becke_d1 rmin R_ x Hx) (conj (Becke_d2 rmin R_ x Hx) (conj (Becke_d3 rmin R_ x Hx) (conj _ _)))).
+  - apply Rgt_not_eq. exact (Becke_deriv_pos rmin R_ x HR Hx).
   - apply Becke_inv_tf; [lra|exact Hx].
 Qed.
 Lemma Knowles_tf_ok_lemma rmin R_ k : 0 < R_ -> 0 < k ->
   tf_ok Dom (Knowles_transform rmin R_ k) (Knowles_inverse rmin R_ k) (Knowles_deriv rmin R_ k) (Knowles_deriv2 rmin R_ k) (Knowles_deriv3 rmin R_ k).
 Proof.
-  intros HR Hk x Hx. repeat apply conj.
-  - now apply Knowles_d1. - now apply Knowles_d2. - now apply Knowles_d3.
-  - apply Rgt_not_eq. now apply Knowles_deriv_pos.
+  intros HR Hk x Hx.
+  refine (conj (Knowles_d1 rmin R_ k x Hk Hx) (conj (Knowles_d2 rmin R_ k x Hk Hx) (conj (Knowles_d3 rmin R_ k x Hk Hx) (conj _ _)))).
+  - apply Rgt_not_eq. exact (Knowles_deriv_pos rmin R_ k x HR Hk Hx).
   - apply Knowles_inv_tf; [lra|exact Hk|exact Hx].
 Qed.
 Lemma MultiExp_tf_ok_lemma rmin R_ : 0 < R_ ->
   tf_ok Dom (MultiExp_transform rmin R_) (MultiExp_inverse rmin R_) (MultiExp_deriv rmin R_) (MultiExp_deriv2 rmin R_) (MultiExp_deriv3 rmin R_).
 Proof.
-  intros HR x Hx. repeat apply conj.
-  - now apply MultiExp_d1. - now apply MultiExp_d2. - now apply MultiExp_d3.
-  - apply Rlt_not_eq. now apply MultiExp_deriv_neg.
+  intros HR x Hx.
+  refine (conj (MultiExp_d1 rmin R_ x Hx) (conj (MultiExp_d2 rmin R_ x Hx) (conj (MultiExp_d3 rmin R_ x Hx) (conj _ _)))).
+  - apply Rlt_not_eq. exact (MultiExp_deriv_neg rmin R_ x HR Hx).
   - apply MultiExp_inv_tf; [lra|exact Hx].
 Qed.
 
@@ -116,7 +116,7 @@ Example contract_satisfiable :
   init_T_1 1 (exp (fst (span_T (fun x => x) 0 1))).
 Proof.
   split; [|split].
-  - intros x _. repeat apply conj; try (auto_derive; [exact I|ring]); try lra. reflexivity.
+  - intros x _. split; [|split; [|split; [|split]]]; try (auto_derive; [exact I|ring]); try lra. reflexivity.
   - intros x _. unfold ivp_rhsT_1. auto_derive; [exact I|]. field.
   - unfold init_T_1, span_T. cbn [fst]. apply exp_0.
 Qed.
